@@ -18,7 +18,7 @@ using sim::Rng;
 // ops
 enum { OP_ROOT = 0, OP_CHILD = 1, OP_ROUND = 2, OP_TERM_JOB = 3, OP_TERM_OUT = 4 };
 // events
-enum { EV_JOB_START = 1, EV_JOB_END, EV_ENQ_DONE, EV_WAIT_CALL, EV_WAIT_RET, EV_TERM_CALL, EV_TERM_RET };
+enum { EV_JOB_START = 1, EV_JOB_END, EV_ENQ_DONE, EV_WAIT_CALL, EV_WAIT_RET, EV_TERM_CALL, EV_TERM_RET, EV_CLOSURE_GONE };
 // cfg indices
 enum { C_POOL = 0, C_SCEN, C_WAITERS, C_DESTROY, C_OUTSIDE, C_N };
 
@@ -32,7 +32,7 @@ void generate(Rng& r, Workload& w, int tier) {
     for (int rd = 0; rd < rounds; ++rd) {
         int k = rounds == 1 ? njobs : int(r.range(0, njobs / rounds + 1));
         for (int i = 0; i < k; ++i) {
-            if (i > 0 && r.chance(1, 2)) w.ops.push_back({OP_CHILD, int64_t(r.below(8))});
+            if (i > 0 && r.chance(1, 2)) w.ops.push_back({OP_CHILD, int64_t(r.below(8)), r.chance(1, 4) ? 1 : 0});
             else w.ops.push_back({OP_ROOT, outside ? int64_t(r.below(uint64_t(outside + 1))) : 0});
         }
         if (rd + 1 < rounds) w.ops.push_back({OP_ROUND});
@@ -51,6 +51,7 @@ struct Job {
     int who;          // root: 0 controller, k>0 outside thread k
     bool terminates;  // calls terminate() at its end
     std::vector<int> children;
+    std::vector<int> dtor_children;   // enqueued when the job's closure is destroyed (continuation token)
 };
 
 struct Ctx {
@@ -58,7 +59,33 @@ struct Ctx {
     tlx::ThreadPool* pool = nullptr;
     std::vector<int> plain_count;   // written by the job only, read after the wait
     std::vector<int> plain_result;
+    std::vector<int> plain_closure_gone;   // written when the job's closure is destroyed
 };
+
+void run_job(Ctx* cx, int j);
+void enqueue_job(Ctx* cx, int j);
+
+// Captured by value in every job closure: its destructor is user code that runs
+// on the worker when the pool destroys the closure, i.e. still "within the job".
+// It records an effect and enqueues the job's continuation jobs, the way a
+// fork-join token or a commit-on-destruction object would.
+struct Token {
+    Ctx* cx; int j;
+    Token(Ctx* c, int job) : cx(c), j(job) {}
+    ~Token() {
+        sim::event(EV_CLOSURE_GONE, j);
+        cx->plain_closure_gone[size_t(j)] = 1;
+        for (int c : cx->jobs[size_t(j)].dtor_children) enqueue_job(cx, c);
+    }
+};
+
+void enqueue_job(Ctx* cx, int j) {
+    {
+        auto tok = std::make_shared<Token>(cx, j);
+        cx->pool->enqueue([cx, j, tok]() { run_job(cx, j); });
+    }   // the closure stored in the pool now holds the only reference
+    sim::event(EV_ENQ_DONE, j);
+}
 
 void run_job(Ctx* cx, int j) {
     const Job& jb = cx->jobs[size_t(j)];
@@ -66,10 +93,7 @@ void run_job(Ctx* cx, int j) {
     sim::rt_cell_add(uint32_t(j), 1);
     sim::point();
     cx->plain_count[size_t(j)]++;
-    for (int c : jb.children) {
-        cx->pool->enqueue([cx, c]() { run_job(cx, c); });
-        sim::event(EV_ENQ_DONE, c);
-    }
+    for (int c : jb.children) enqueue_job(cx, c);
     sim::point();
     cx->plain_result[size_t(j)] = 1000 + j;
     if (jb.terminates) {
@@ -88,6 +112,7 @@ void execute(const Workload& w, Result& res) {
     const int outside = int(sim::modn(sim::cfg_at(w, C_OUTSIDE), 3));
 
     Ctx cx;
+    bool any_dtor_child = false;
     int round = 0, nrounds = 1;
     int term_out = 0;                 // outside thread that terminates (terminate scenario)
     std::vector<int> round_first;     // index of first job of each round
@@ -98,12 +123,16 @@ void execute(const Workload& w, Result& res) {
         int first = round_first.back();
         int have = int(cx.jobs.size()) - first;
         if (code == OP_ROOT || (code == OP_CHILD && have == 0)) {
-            Job j{int(cx.jobs.size()), round, -1, code == OP_ROOT ? int(sim::modn(a, outside + 1)) : 0, false, {}};
+            Job j{int(cx.jobs.size()), round, -1, code == OP_ROOT ? int(sim::modn(a, outside + 1)) : 0, false, {}, {}};
             cx.jobs.push_back(j);
         } else if (code == OP_CHILD) {
             int par = first + int(sim::modn(a, have));
-            Job j{int(cx.jobs.size()), round, par, 0, false, {}};
-            cx.jobs[size_t(par)].children.push_back(j.id);
+            Job j{int(cx.jobs.size()), round, par, 0, false, {}, {}};
+            // continuation enqueued by the destructor of the parent's closure: only where every job is
+            // guaranteed to complete before the pool goes away (no terminate, no abrupt destruction)
+            const bool by_dtor = !scen_term && !abrupt && op.size() > 2 && sim::modn(op[2], 2) == 1;
+            if (by_dtor) { cx.jobs[size_t(par)].dtor_children.push_back(j.id); any_dtor_child = true; }
+            else cx.jobs[size_t(par)].children.push_back(j.id);
             cx.jobs.push_back(j);
         } else if (code == OP_ROUND && !scen_term) {
             round++; nrounds++;
@@ -121,6 +150,8 @@ void execute(const Workload& w, Result& res) {
     const bool ctrl_terminates = scen_term && !any_term_job && term_out == 0;
     cx.plain_count.assign(size_t(nj), 0);
     cx.plain_result.assign(size_t(nj), 0);
+    cx.plain_closure_gone.assign(size_t(nj), 0);
+    if (any_dtor_child) res.probe("continuation_enqueued_by_closure_destructor");
     res.probe(scen_term ? "scenario_terminate" : "scenario_rounds");
     if (waiters == 2) res.probe("two_waiters");
     if (outside) res.probe("outside_enqueuers");
@@ -143,10 +174,7 @@ void execute(const Workload& w, Result& res) {
             racy = true;
             outs.emplace_back([&cx, lo, hi, k, scen_term, term_out]() {
                 for (int j = lo; j < hi; ++j)
-                    if (cx.jobs[size_t(j)].parent < 0 && cx.jobs[size_t(j)].who == k) {
-                        cx.pool->enqueue([&cx, j]() { run_job(&cx, j); });
-                        sim::event(EV_ENQ_DONE, j);
-                    }
+                    if (cx.jobs[size_t(j)].parent < 0 && cx.jobs[size_t(j)].who == k) enqueue_job(&cx, j);
                 if (scen_term && term_out == k) {
                     sim::event(EV_TERM_CALL, -k);
                     cx.pool->terminate();
@@ -155,10 +183,7 @@ void execute(const Workload& w, Result& res) {
             });
         }
         for (int j = lo; j < hi; ++j)
-            if (cx.jobs[size_t(j)].parent < 0 && cx.jobs[size_t(j)].who == 0) {
-                cx.pool->enqueue([&cx, j]() { run_job(&cx, j); });
-                sim::event(EV_ENQ_DONE, j);
-            }
+            if (cx.jobs[size_t(j)].parent < 0 && cx.jobs[size_t(j)].who == 0) enqueue_job(&cx, j);
         if (ctrl_terminates) {
             sim::event(EV_TERM_CALL, 0);
             cx.pool->terminate();
@@ -191,6 +216,9 @@ void execute(const Workload& w, Result& res) {
                 res.fail("done_count", "done()=" + std::to_string(d) + " after loop_until_empty, jobs run=" +
                                            std::to_string(finished_expected));
             for (int j = 0; j < hi; ++j) {
+                if (cx.plain_closure_gone[size_t(j)] != 1)
+                    res.fail("quiescence", "job " + std::to_string(j) + ": the pool still holds (or is still destroying) the job's closure when "
+                                               "loop_until_empty returned (round " + std::to_string(rd) + ")");
                 if (cx.plain_count[size_t(j)] != 1 || cx.plain_result[size_t(j)] != 1000 + j)
                     res.fail("exactly_once", "job " + std::to_string(j) + " executed " +
                                                  std::to_string(cx.plain_count[size_t(j)]) +
